@@ -9,6 +9,8 @@ import (
 	"github.com/openkruise/rollouts/api/v1beta1"
 	appsv1 "k8s.io/api/apps/v1"
 	corev1 "k8s.io/api/core/v1"
+	networkingv1 "k8s.io/api/networking/v1"
+	gatewayv1beta1 "sigs.k8s.io/gateway-api/apis/v1beta1"
 )
 
 // Brief renders the interesting part of a write for debugging output.
@@ -51,8 +53,13 @@ func Brief(wr *Write) string {
 	if wr.After == nil {
 		return "(gone)"
 	}
+	if briefExtra != nil {
+		return briefExtra(wr)
+	}
 	return ""
 }
+
+var briefExtra func(wr *Write) string
 
 func keys(m map[string]string) []string { return sortedKeys(m) }
 
@@ -83,4 +90,18 @@ func DumpState(r *Run) string {
 	pods := w.ListAll(GVKPod, "")
 	sb.WriteString(fmt.Sprintf("%d pods\n", len(pods)))
 	return sb.String()
+}
+
+func init() {
+	briefExtra = func(wr *Write) string {
+		if r, ok := wr.After.(*gatewayv1beta1.HTTPRoute); ok {
+			b, _ := json.Marshal(r.Spec.Rules)
+			return string(b)
+		}
+		if i, ok := wr.After.(*networkingv1.Ingress); ok {
+			b, _ := json.Marshal(i.Annotations)
+			return string(b)
+		}
+		return ""
+	}
 }
